@@ -68,3 +68,63 @@ func verifRealLexTEXT(s string) int {
 	}
 	return len(tok.GetText())
 }
+
+// VerifSelftest_Parser compares the parser model with the generated parser,
+// natively, on every token sequence of ≤ 5 tokens over a vocabulary covering
+// every lexer rule and operator (accept/reject and tree structure), plus the
+// expressions of the package's own tests.
+func VerifSelftest_Parser() string {
+	vocab := []string{"a", "1", "2.5", `"s"`, "true", "null", "(", ")", "[", "]", ".", ",", "=>", "+", "-", "*", "/", "^", "=", "!=", "<", ">=", "&", "f"}
+	n, accepted := 0, 0
+	var rec func(prefix []string, depth int) string
+	rec = func(prefix []string, depth int) string {
+		if len(prefix) > 0 {
+			e := ""
+			for i, t := range prefix {
+				if i > 0 {
+					e += " "
+				}
+				e += t
+			}
+			n++
+			real, rerr := Parse(e, nil)
+			model, merr := VerifParse(e, nil)
+			if (rerr == nil) != (merr == nil) {
+				return fmt.Sprintf("parser model and generated parser disagree on accepting %q: real err=%v model err=%v", e, rerr, merr)
+			}
+			if rerr == nil {
+				accepted++
+				if verifDump(real) != verifDump(model) {
+					return fmt.Sprintf("parser model and generated parser build different trees for %q: real %s model %s", e, verifDump(real), verifDump(model))
+				}
+			}
+		}
+		if depth == 0 {
+			return ""
+		}
+		for _, t := range vocab {
+			if e := rec(append(append([]string{}, prefix...), t), depth-1); e != "" {
+				return e
+			}
+		}
+		return ""
+	}
+	if e := rec(nil, 4); e != "" {
+		return e
+	}
+	// longer hand-picked expressions
+	for _, e := range []string{`-2^2`, `1+2*3^4-5/6`, `a.b.c(1, 2)[3].d`, `(x, y) => x + y & "z"`, `f((x) => x * 2, a)`, `a = b != c < d <= e`, `-a.b(-1)`, `"a\"b" & "c\\"`,
+		`foo.0.bar`, `upper(contact.name) & " " & 1.50`, `(1 + 2) * (3 - -4)`, `a[b[c]]`, `TRUE & False & NULL`, `a b`, `1 +`, `(a`, `a..b`, `f(,)`, `!`, `a ! b`, `"abc`} {
+		n++
+		real, rerr := Parse(e, nil)
+		model, merr := VerifParse(e, nil)
+		if (rerr == nil) != (merr == nil) {
+			return fmt.Sprintf("parser model and generated parser disagree on accepting %q: real err=%v model err=%v", e, rerr, merr)
+		}
+		if rerr == nil && verifDump(real) != verifDump(model) {
+			return fmt.Sprintf("parser model and generated parser build different trees for %q: real %s model %s", e, verifDump(real), verifDump(model))
+		}
+	}
+	fmt.Printf("VERIF-SELFTEST Parser: %d expressions agree (%d accepted)\n", n, accepted)
+	return ""
+}
